@@ -11,6 +11,7 @@ import (
 	"time"
 
 	"pault.ag/go/debian/deb"
+	"pault.ag/go/debian/dependency"
 	"pgregory.net/rapid"
 )
 
@@ -123,7 +124,29 @@ func debOutcome(raw []byte, eager bool) (string, error) {
 			names = append(names, fmt.Sprintf("%s:%d", name, e.Size))
 		}
 		sort.Strings(names)
-		out = fmt.Sprintf("ok ctl=%s data=%s pkg=%q ver=%q arch=%q members=%v", d.ControlExt, d.DataExt, d.Control.Package, d.Control.Version.String(), d.Control.Architecture.String(), names)
+		deps := []*dependency.Dependency{&d.Control.Depends, &d.Control.Recommends, &d.Control.Suggests, &d.Control.Breaks, &d.Control.Replaces, &d.Control.BuiltUsing}
+		rendered := []string{}
+		for _, dp := range deps {
+			rendered = append(rendered, dp.String())
+		}
+		out = fmt.Sprintf("ok ctl=%s data=%s pkg=%q ver=%q arch=%q members=%v relations=%q", d.ControlExt, d.DataExt, d.Control.Package, d.Control.Version.String(), d.Control.Architecture.String(), names, rendered)
+		// what one load handed out is the caller's: it is written over here, and the next load of the
+		// same bytes has to say what the bytes say
+		for _, dp := range deps {
+			for i := range dp.Relations {
+				for j := range dp.Relations[i].Possibilities {
+					p := &dp.Relations[i].Possibilities[j]
+					p.Name = "scribbled-over"
+					if p.Version != nil {
+						p.Version.Number = "0~scribbled"
+					}
+					if p.Architectures != nil {
+						p.Architectures.Not = !p.Architectures.Not
+					}
+				}
+				dp.Relations[i].Possibilities = dp.Relations[i].Possibilities[:0]
+			}
+		}
 		return nil
 	})
 	return out, err
@@ -372,7 +395,7 @@ func genCorruptArchive(t *rapid.T) BytesCase {
 		// the hostile part sits one level down: the control member is a tar whose './control' entry
 		// is a sparse file (old GNU 'S' header: a few bytes stored, a huge logical size the tar reader
 		// fills with NULs it makes up), a directory, a symlink, or declares more data than there is
-		kind := rapid.SampledFrom([]string{"sparse-2^20", "sparse-2^40", "sparse-2^62", "dir", "symlink", "short", "pax-sparse-control", "pax-sparse-other-before", "pax-sparse-other-after", "size-claim-2^62", "size-claim-2^55", "size-claim-other-2^62", "many-continuation-lines", "huge-dependency-token"}).Draw(t, "tarkind")
+		kind := rapid.SampledFrom([]string{"sparse-2^20", "sparse-2^40", "sparse-2^62", "dir", "symlink", "short", "pax-sparse-control", "pax-sparse-other-before", "pax-sparse-other-after", "size-claim-2^62", "size-claim-2^55", "size-claim-other-2^62", "many-continuation-lines", "huge-dependency-token", "clearsigned-control"}).Draw(t, "tarkind")
 		note = "tarlevel:" + kind
 		var ctl []byte
 		gzControl := false
@@ -423,6 +446,14 @@ func genCorruptArchive(t *rapid.T) BytesCase {
 				ctl = append(claim("./md5sums", 1<<62), rawTarEntry("./control", '0', text)...)
 			}
 			ctl = append(ctl, make([]byte, 1024)...)
+		case "clearsigned-control":
+			// the control file wrapped in a clearsign frame (someone signed it before packing), in
+			// the shapes such frames come in: with and without a Hash: header, with and without the
+			// empty line behind it, with a garbage signature, cut off
+			body := "Package: x\nVersion: 1\nArchitecture: all\nMaintainer: A <a@b.c>\nDescription: d\n"
+			head := rapid.SampledFrom([]string{"-----BEGIN PGP SIGNED MESSAGE-----\nHash: SHA256\n\n", "-----BEGIN PGP SIGNED MESSAGE-----\n\n", "-----BEGIN PGP SIGNED MESSAGE-----\n", "-----BEGIN PGP SIGNED MESSAGE-----\nHash: MD5\nHash: SHA1\n\n", "-----BEGIN PGP SIGNED MESSAGE-----\nHash:\n\n", "-----BEGIN PGP SIGNED MESSAGE-----\nComment: x\n\n"}).Draw(t, "csHead")
+			tail := rapid.SampledFrom([]string{"-----BEGIN PGP SIGNATURE-----\n\niQEzBAEBCAAdFiEE\n=abcd\n-----END PGP SIGNATURE-----\n", "-----BEGIN PGP SIGNATURE-----\niQEzBAEBCAAdFiEE\n-----END PGP SIGNATURE-----\n", "-----BEGIN PGP SIGNATURE-----\n", "", "-----END PGP SIGNATURE-----\n-----BEGIN PGP SIGNATURE-----\n\n-----END PGP SIGNATURE-----\n"}).Draw(t, "csTail")
+			ctl, _ = buildTar([]TarFile{{Name: "./control", Type: "reg", Content: []byte(head + body + tail)}})
 		case "huge-dependency-token":
 			// ... or into a relationship field made of ONE token of 600 000 to 1 000 000 bytes - a
 			// package name, a version, an architecture, a qualifier, a substvar, a profile
@@ -552,7 +583,7 @@ func genCorruptArchive(t *rapid.T) BytesCase {
 
 var specC15Corrupt = Register(&Spec[BytesCase]{
 	Prop: "C15", Name: "corrupt",
-	Rule:  "structured corruption of valid artefacts (C13 archives and C14 packages with stored/gzip members): one header column (name, mtime, uid, gid, mode, size, magic) of one member overwritten with negative, '+'-signed, huge, blank, non-numeric, NUL, hex or overflowing text; 2..4 numeric columns of one header made non-numeric at once; a member renamed '//' and later ones '/<offset>' (GNU long-name table and references); the control member replaced by a stored tar whose './control' entry is a GNU sparse file of 2^20 / 2^40 / 2^62 made-up bytes, a directory, a symlink, or cut short, or which carries - as ./control or next to it - a PAX-style sparse entry of 2^40 made-up bytes, or a regular entry (./control or the file in front of it) whose base-256 size field claims 2^55 or 2^62 bytes, or replaced by a few KiB of gzip whose './control' is one field with 500 000 to 800 000 continuation lines (it has to be read in a time that does not grow with the square of that), or whose Depends is one token of 600 000 to 1 000 000 bytes; one or both header magic bytes changed; truncation at a generated offset; a member duplicated (same or changed content), members reordered, a decoy control.*/data.* member with another extension (optionally a tar with 'Package: evil') inserted; a padding byte added or removed; a global magic byte flipped. Oracle: no panic; the Next() loop ends in io.EOF or an error within len/60+2 steps; every returned member sits behind a header ending 0x60 0x0A, has Size >= 0 and a reader delivering exactly Size bytes; deb.Load stays within a read budget and returns within 20 s; seven iterations / loads of the same bytes, and one through an io.SectionReader window of a larger buffer with a valid archive behind it, give the same outcome (the same error text, or the same extensions, control identity and member index). Non-trivial: >= 1 member returned or a first header parsed; distinct by bytes.",
+	Rule:  "structured corruption of valid artefacts (C13 archives and C14 packages with stored/gzip members): one header column (name, mtime, uid, gid, mode, size, magic) of one member overwritten with negative, '+'-signed, huge, blank, non-numeric, NUL, hex or overflowing text; 2..4 numeric columns of one header made non-numeric at once; a member renamed '//' and later ones '/<offset>' (GNU long-name table and references); the control member replaced by a stored tar whose './control' entry is a GNU sparse file of 2^20 / 2^40 / 2^62 made-up bytes, a directory, a symlink, or cut short, or which carries - as ./control or next to it - a PAX-style sparse entry of 2^40 made-up bytes, or a regular entry (./control or the file in front of it) whose base-256 size field claims 2^55 or 2^62 bytes, or replaced by a few KiB of gzip whose './control' is one field with 500 000 to 800 000 continuation lines (it has to be read in a time that does not grow with the square of that), or whose Depends is one token of 600 000 to 1 000 000 bytes, or whose './control' comes wrapped in a clearsign frame (with / without Hash: header, empty line, signature, END line); one or both header magic bytes changed; truncation at a generated offset; a member duplicated (same or changed content), members reordered, a decoy control.*/data.* member with another extension (optionally a tar with 'Package: evil') inserted; a padding byte added or removed; a global magic byte flipped. Oracle: no panic; the Next() loop ends in io.EOF or an error within len/60+2 steps; every returned member sits behind a header ending 0x60 0x0A, has Size >= 0 and a reader delivering exactly Size bytes; deb.Load stays within a read budget and returns within 20 s; seven iterations / loads of the same bytes, and one through an io.SectionReader window of a larger buffer with a valid archive behind it, give the same outcome (the same error text, or the same extensions, control identity and member index). Non-trivial: >= 1 member returned or a first header parsed; distinct by bytes.",
 	Check: checkBytesCase,
 })
 
